@@ -489,6 +489,38 @@ theorem fit_tilt_propagates_like_original (amp : Int → Int → ℂ) (mask opd 
       rw [hu]
     · rw [h0, zero_mul, zero_mul]
   rw [hf]
+/-- non-vacuity of `fit_tilt_propagates_like_original`: a fully illuminated 2x2 plane, solver coefficients `t = (7, 5/2, -2)` (recorded
+`Tilt(x=5/2, y=-2)`: 2.5 rows, 2 columns at unit lengths) split as `(2 + 1/2, 2 + 0)`; all hypotheses hold at the sample (1, 1) -/
+example := fit_tilt_propagates_like_original (fun _ _ => 1) (fun _ _ => 1) (fun x y => ((x + y : ℤ) : ℝ))
+  (fun k => if k = 1 then 5/2 else if k = 2 then -2 else 7) (fun _ _ => Or.inl rfl) 1 1 1 1 1 1 1 2 2
+  one_ne_zero one_ne_zero one_ne_zero ⟨one_ne_zero, one_ne_zero⟩ 2 2 (1/2) 0
+  (by simp only [fitTiltRecord, fitRecordXY, Gen.fitRecord]
+      rw [fieldShift_angular (by simp [RealLike.ofInt])]; simp only [RealLike.ofInt]; refine Prod.ext ?_ ?_ <;> norm_num)
+  (outExtent 8 8 none) (outExtent 8 8 none) 4 4 4 4 (by rw [outExtent_nomask]; decide) (by decide) (by rw [outExtent_nomask]; decide) (by decide)
+  1 1 (by decide) (by decide)
+
+/-- **After `fit_tilt`, the image is the Fraunhofer transform of the ORIGINAL plane.** Composition of `fit_tilt_propagates_like_original`
+with C02 `propagateField_sample`: every output sample the fitted plane evaluates (with its recorded Tilt as metadata, any split of the
+shift, any solver coefficients) equals the unitary Fraunhofer sum of the original plane's field — amplitude and ORIGINAL OPD — at that
+sample's own global coordinate, `alpha = dx·du/(λ z os)`. The fit changes where the window sits, never what is in it. -/
+theorem fit_tilt_image_is_original_fraunhofer (amp : Int → Int → ℂ) (mask opd : Int → Int → ℝ) (t : Int → ℝ)
+    (hmask : ∀ x y, mask x y = 1 ∨ (mask x y = 0 ∧ amp x y = 0))
+    (dx0 dx1 du0 du1 wl z : ℝ) (os : Int) (s0 s1 : Int) (hw : wl ≠ 0) (hz : z ≠ 0) (hos : os ≠ 0) (hdu : du0 ≠ 0 ∧ du1 ≠ 0)
+    (fix0 fix1 : Int) (sub0 sub1 : ℝ)
+    (hsplit : ((fix0 : ℝ) + sub0, (fix1 : ℝ) + sub1) = fieldShift [fitTiltRecord t] z wl du0 du1 os true)
+    (oe : Extent) (P0 P1 : Int) (hoe : oe.rmin ≤ oe.rmax ∧ oe.cmin ≤ oe.cmax) (hP : 0 < P0 ∧ 0 < P1) (r c : Int)
+    (hin : (oe.inb r c && (propExtent P0 P1 fix0 fix1).inb r c) = true) :
+    embO (propagateField ⟨phasorField amp (fitTiltOpd s0 s1 dx0 dx1 mask opd t) wl s0 s1 0 0, fix0, fix1, sub0, sub1⟩
+      (dftAlpha dx0 dx1 du0 du1 wl z os).1 (dftAlpha dx0 dx1 du0 du1 wl z os).2 oe P0 P1) r c =
+    fraunhoferAt (phasorField amp opd wl s0 s1 0 0) (dftAlpha dx0 dx1 du0 du1 wl z os).1 (dftAlpha dx0 dx1 du0 du1 wl z os).2
+      (RealLike.ofInt r) (RealLike.ofInt c) := by
+  have hin' : ((⟨r, r, c, c⟩ : Extent).inb r c && (propExtent (2 * (r.natAbs : Int) + 2) (2 * (c.natAbs : Int) + 2) 0 0).inb r c) = true := by
+    rw [Bool.and_eq_true, Extent.inb_iff, Extent.inb_iff, propExtent, arrayExtent_eq]; simp only; omega
+  rw [fit_tilt_propagates_like_original amp mask opd t hmask dx0 dx1 du0 du1 wl z os s0 s1 hw hz hos hdu fix0 fix1 sub0 sub1 hsplit oe
+    ⟨r, r, c, c⟩ P0 P1 (2 * (r.natAbs : Int) + 2) (2 * (c.natAbs : Int) + 2) hoe hP ⟨le_refl _, le_refl _⟩ ⟨by omega, by omega⟩ r c hin hin']
+  rw [C02.propagateField_sample (K := ℂ) (R := ℝ) (fun _ => rfl) _ _ _ ⟨r, r, c, c⟩ _ _ ⟨le_refl _, le_refl _⟩ ⟨by omega, by omega⟩ r c]
+  simp only [hin', if_true, sub_zero]
+
 /-- **Segmented planes: each segment's field after `fit_tilt` propagates like that segment of the original plane.** Segment `s` of a
 segmented plane (binary, pairwise disjoint masks; the segment's amplitude vanishes off its own mask): its field with the OPD the segmented
 branch of `fit_tilt` leaves (`fitTiltOpdSeg`, which also zeroes the OPD outside all segments) carrying the segment's own recorded element
